@@ -6,7 +6,7 @@ CONSTANTS
   Entries <- Protected
   RetryProtected = TRUE
 INIT Init
-NEXT Next
+NEXT NextE
 CONSTRAINT Bound
 INVARIANT InvOK
 INVARIANT InvCanonical
